@@ -44,6 +44,7 @@ func init() {
 			ruleHandlerLookup(c, "R5")
 			rulePortCutAtLastColon(c, "R6")
 			ruleDigitPredicates(c, "R7", "mux.validOptionalPort")
+			ruleCharClasses(c, "R7b", "mux.validOptionalPort")
 			ruleRegexpQuoting(c, "R8")
 			ruleIndexResetOnEveryPath(c, "R2c")
 		},
